@@ -69,7 +69,7 @@ def rt_keys(excluded: tuple = (), max_nq: int = 3) -> list:
 
 
 REDUCED_RT = (
-    'HGate', 'RXGate', 'U3Gate', 'CXGate', 'CRZGate', 'CCXGate',
+    'HGate', 'RXGate', 'U3Gate', 'CNOTGate', 'CRZGate', 'CCXGate',
     'ControlledGate(SwapGate)', 'CircuitGate[rx,cx,rz]',
     'BarrierPlaceholder(2)', 'MeasurementPlaceholder(1)', 'Reset',
     'FrozenParameterGate(U3Gate,{1:0.3})', 'XXGate',
@@ -89,7 +89,10 @@ def single_param_vectors(k: int, seed: int) -> list:
         vecs.append([float(s)] * k)
     mixed = [float(SPECIALS[i % len(SPECIALS)]) for i in range(k)]
     vecs.append(mixed)
-    return vecs
+    seen: dict = {}
+    for v in vecs:
+        seen.setdefault(tuple(v), v)
+    return list(seen.values())
 
 
 def seq_param_variants(keys_locs: list, seed: int, both: bool) -> list:
@@ -295,7 +298,7 @@ def fe1() -> list:
     for o1 in OPS5:
         for o2 in OPS5:
             out += [f'(a{o1}2){o2}pi', f'pi{o2}(a{o1}2)']
-    return out
+    return list(dict.fromkeys(out))
 
 
 def fe2() -> list:
@@ -308,7 +311,7 @@ def fe2() -> list:
     for o1 in OPS5:
         for o2 in OPS5:
             out += [f'(a{o1}b){o2}2', f'2{o2}(a{o1}b)']
-    return out
+    return list(dict.fromkeys(out))
 
 
 VALS1 = ('0.3', '-0.7', 'pi/2', '1e-1', '2')
@@ -371,7 +374,7 @@ def gd2_cases(k: int, m: int, quick: bool) -> list:
                 call = 'g' + (f'({",".join(vs[:k])})' if k else '') \
                     + ' ' + ','.join(locs) + ';'
                 out.append((decls, (d,), (call,)))
-    return out
+    return list(dict.fromkeys(out))
 
 
 INNER = (
@@ -423,7 +426,7 @@ def gd3_cases(ii: int, k2: int, m2: int, quick: bool) -> list:
                         for direct in directs:
                             st = (main,) + ((direct,) if direct else ())
                             out.append((decls, (inner, d2), st))
-    return out
+    return list(dict.fromkeys(out))
 
 
 STATIC_BUILTIN_NAMES = (
